@@ -185,6 +185,37 @@ impl<'a, 'd> Gen<'a, 'd> {
 
     /// an item name: in hostile mode from the pool (unique, gates respected), else `default`
     fn item_name(&mut self, pool: &[(&str, &str)], default: String) -> String {
+        // a name built around a word the back end treats specially (`domain`, `is_main`,
+        // `init0`, `mapx`, `println_`): none of these is reserved, all must simply work
+        if self.cfg.hostile_names && self.d.chance(50) {
+            const STEMS: [&str; 22] = [
+                "main", "init", "missing", "print", "println", "len", "map", "func", "go", "type", "string", "int32",
+                "Tuple2", "ref", "closure_env", "dyn", "goml", "apply", "unit", "bool", "panic", "fmt",
+            ];
+            const PRE: [&str; 6] = ["", "do", "re", "is_", "x", "my_"];
+            const SUF: [&str; 7] = ["", "0", "1", "_", "x", "_0", "s"];
+            const KEYWORDS: [&str; 24] = [
+                "fn", "let", "match", "if", "else", "while", "struct", "enum", "trait", "impl", "for", "go", "return", "true",
+                "false", "package", "import", "extern", "dyn", "use", "in", "type", "unit", "bool",
+            ];
+            let stem = STEMS[self.d.below(STEMS.len())];
+            let pre = PRE[self.d.below(PRE.len())];
+            let suf = SUF[self.d.below(SUF.len())];
+            let n = format!("{pre}{stem}{suf}");
+            let listed = HOSTILE_FNS.iter().chain(HOSTILE_TYPES.iter()).any(|(x, _)| *x == n);
+            let folds = self.used_names.iter().any(|u| u.eq_ignore_ascii_case(&n));
+            if (!pre.is_empty() || !suf.is_empty())
+                && !listed
+                && !folds
+                && !KEYWORDS.contains(&n.as_str())
+                && !matches!(n.as_str(), "string" | "int32" | "println" | "print" | "ref")
+            {
+                self.used_names.insert(n.clone());
+                self.label("names:hostile-item");
+                self.label("names:composite");
+                return n;
+            }
+        }
         if self.cfg.hostile_names && self.d.chance(200) {
             let (n, gate) = pool[self.d.below(pool.len())];
             // Ref[A] and Ref[a] share one generated name (KF-30)
@@ -1124,7 +1155,27 @@ impl<'a, 'd> Gen<'a, 'd> {
                     _ => Expr::Unit,
                 }
             }
-            Ty::Bool => match self.d.below(5) {
+            Ty::Bool => match self.d.below(6) {
+                5 => {
+                    // `x != 0 && n / x > k` / `x == 0 || n / x > k`: the right operand is a
+                    // call-free operator tree that must only be evaluated behind its guard
+                    let xs: Vec<Expr> = self.paths(&Ty::i32()).into_iter().filter(|e| matches!(e, Expr::Var(_))).collect();
+                    if xs.is_empty() {
+                        return self.cmp_expr(fuel);
+                    }
+                    let x = xs[self.d.below(xs.len())].clone();
+                    let n = self.leaf(&Ty::i32());
+                    let k = Expr::Int(IK::I32, self.d.below(4) as i128, false);
+                    let zero = Expr::Int(IK::I32, 0, false);
+                    let cmp = *[BinOp::Gt, BinOp::Lt, BinOp::Eq].get(self.d.below(3)).unwrap();
+                    let rhs = Expr::Bin(cmp, Box::new(Expr::Bin(BinOp::Div, Box::new(n), Box::new(x.clone()))), Box::new(k));
+                    self.label("andor:guarded-div");
+                    if self.d.bool() {
+                        Expr::Bin(BinOp::And, Box::new(Expr::Bin(BinOp::Ne, Box::new(x), Box::new(zero))), Box::new(rhs))
+                    } else {
+                        Expr::Bin(BinOp::Or, Box::new(Expr::Bin(BinOp::Eq, Box::new(x), Box::new(zero))), Box::new(rhs))
+                    }
+                }
                 0 | 1 => self.cmp_expr(fuel),
                 2 => {
                     let a = self.expr(&Ty::Bool, fuel - 1);
@@ -1568,13 +1619,22 @@ impl<'a, 'd> Gen<'a, 'd> {
         }
         let (v, ps, r) = cands[self.d.below(cands.len())].clone();
         self.label("closure:call");
+        // a computed callee: its evaluation (with an effect) comes before the arguments'.
+        // A closure literal must not be passed around while KF-05 is open.
+        let fty = Ty::Fn(ps.clone(), Box::new(r.clone()));
+        let callee = if self.cfg.ticks && (self.esc_ok || !self.closure_vars.contains(&v)) && self.d.chance(80) {
+            self.label("closure:computed-callee");
+            self.tick(&fty, Expr::Var(v))
+        } else {
+            Expr::Var(v)
+        };
         let args = self.call_args(&ps, fuel);
         let ann = self.needs_annotation(&r, &Expr::Unit) || self.d.bool();
         let nv = self.new_var(r.clone(), ann);
         Some(vec![Stmt::Let(
             Pat::Var(nv),
             if ann { Some(r) } else { None },
-            Expr::Call(Callee::Val(Box::new(Expr::Var(v))), args),
+            Expr::Call(Callee::Val(Box::new(callee)), args),
         )])
     }
 
